@@ -355,8 +355,13 @@ def d4(ctx, rep):
             rs = [c for c in ast.walk(s.value) if isinstance(c, ast.Call) and call_name(c) == 'resample']
             gs = guard_chain(s, fit.node)
             guarded = any(is_self_attr(t, fit.self_name, '_sample_size') and pol for t, pol in gs)
-            size_ok = bool(rs) and rs[0].args and is_self_attr(rs[0].args[0], fit.self_name, '_sample_size')
-            src_ok = bool(rs) and isinstance(rs[0].func.value, ast.Call) and rs[0].func.value.args and isinstance(rs[0].func.value.args[0], ast.Name) \
-                and rs[0].func.value.args[0].id == xp
-            rep.check('D4.kde', fit, s, guarded and size_ok and src_ok, 'resample of size sample_size of the KDE of the training data, only when sample_size is set',
-                      'the optional resampling is not (sample_size points of the KDE of the training data, only when requested)', construct='resample branch')
+            recv = _res(fit, rs[0].func.value) if rs and isinstance(rs[0].func, ast.Attribute) else None
+            src_known = isinstance(recv, ast.Call) and bool(recv.args)
+            src_ok = src_known and derives_rhs(recv.args[0], ()) is True
+            size_arg = rs[0].args[0] if rs and rs[0].args else (kwarg(rs[0], 'size') if rs else None)
+            size_ok = size_arg is not None and is_self_attr(_res(fit, size_arg), fit.self_name, '_sample_size')
+            if not src_known or size_arg is None:
+                rep.undecided('D4.kde', fit, s, 'the estimator that is resampled / the requested size is not recognised', construct='resample branch')
+            else:
+                rep.check('D4.kde', fit, s, guarded and size_ok and src_ok, 'resample of size sample_size of the KDE of the training data, only when sample_size is set',
+                          'the optional resampling is not (sample_size points of the KDE of the training data, only when requested)', construct='resample branch')
